@@ -20,7 +20,7 @@ def replay(f):
                 return dict(reproduced=True, signature="c19:%s:find:raised:%s" % (w["skeleton"], type(e).__name__), detail="get_matches(%r) on %r raised %s: %s" % (w["pattern"], w["src"], type(e).__name__, e))
             finally:
                 proj.close()
-            exp = [(x, y) for x, y, env in c19_oracle.matches(w["src"], w["pattern"], w["start"], w["end"])]
+            exp = c19_oracle.reference_regions(w["src"], w["pattern"], w["start"], w["end"])
             if got == exp:
                 return dict(reproduced=False, signature="", detail="same matches")
             kind = "missing" if set(exp) - set(got) else "extra"
